@@ -13,7 +13,7 @@ try:
     mm=json.load(open(wt+'/_seed/meta.json'))
     m=[x for x in mm.get('mutants',[]) if str(x.get('k'))==k]
     m=dict(m[0]) if m else {}
-    m['property']=mm.get('property')
+    m['property']=m.get('property') or mm.get('property')
 except Exception as e: m={"error":str(e)}
 m['kind']="small classic mutant"
 m["confirmed_by_me"]=conf
